@@ -40,6 +40,10 @@ type Options struct {
 	AppOptions    recapp.Options
 	EvPool        func(stateStore sm.Store, blockStore *store.BlockStore) sm.EvidencePool // default: empty pool
 	Mempool       mempl.Mempool
+	// MempoolFactory builds the mempool on the chain's own ABCI connections (takes precedence over Mempool).
+	MempoolFactory func(conns proxy.AppConns, st sm.State) mempl.Mempool
+	// ClientCreator overrides the in-process local ABCI client (e.g. a socket client to the same app).
+	ClientCreator func(app *recapp.App) proxy.ClientCreator
 	StateDB       dbm.DB
 	BlockDB       dbm.DB
 	StoreOptions  sm.StoreOptions
@@ -71,6 +75,7 @@ type Chain struct {
 	Conns      proxy.AppConns
 	Exec       *sm.BlockExecutor
 	EvPool     sm.EvidencePool
+	Mempool    mempl.Mempool
 	State      sm.State
 	Hist       map[int64]*HeightRec
 	Genesis    sm.State
@@ -135,7 +140,11 @@ func New(opt Options) *Chain {
 		panic(err)
 	}
 	c.App = recapp.New(opt.AppOptions)
-	c.Conns = proxy.NewAppConns(proxy.NewLocalClientCreator(c.App))
+	creator := proxy.NewLocalClientCreator(c.App)
+	if opt.ClientCreator != nil {
+		creator = opt.ClientCreator(c.App)
+	}
+	c.Conns = proxy.NewAppConns(creator)
 	c.Conns.SetLogger(log.NewNopLogger())
 	if err := c.Conns.Start(); err != nil {
 		panic(err)
@@ -147,9 +156,13 @@ func New(opt Options) *Chain {
 		c.EvPool = opt.EvPool(c.StateStore, c.BlockStore)
 	}
 	mp := opt.Mempool
+	if opt.MempoolFactory != nil {
+		mp = opt.MempoolFactory(c.Conns, st)
+	}
 	if mp == nil {
 		mp = mock.Mempool{}
 	}
+	c.Mempool = mp
 	c.Exec = sm.NewBlockExecutor(c.StateStore, log.NewNopLogger(), c.Conns.Consensus(), mp, c.EvPool)
 	c.State = st
 	c.Genesis = st.Copy()
